@@ -287,3 +287,37 @@ class FinishQueryFrame(Contract):
 
     def frame_ok(self, I, inp, obj, name):
         return False
+
+
+@register
+class TextBackendNew(Contract):
+    """TextQueryBackend.__new__: the flag explicit_not_exists_expression is derived from, and stored on, the class that is being
+    instantiated - no other backend class (in particular not the shared base class) is written to"""
+    id = "C15.TextQueryBackend.__new__"
+    target = "sigma.conversion.base:TextQueryBackend.__new__"
+    props = ("C15", "C01")
+    cases = ("with-not-exists-template", "without")
+    assumed = ["object.__new__ is external: a fresh instance of the class"]
+
+    def setup(self, E):
+        E.summaries["object.__new__"] = lambda I, so, a, k: SObj(a[0].info if isinstance(a[0], ClassRef) else "Instance", {}, lazy=True)
+
+    def args(self, I, case):
+        sub = I.E.index.lookup("sigma.backends.test.backend:TextQueryTestBackend")
+        cref = ClassRef(sub)
+        if not hasattr(I.ctx, "class_attrs") or I.ctx.class_attrs is None:
+            I.ctx.class_attrs = {}
+        tmpl = I.fresh("not_exists_template", "str") if case.startswith("with-") else None
+        I.ctx.class_attrs[(sub.qualname, "field_not_exists_expression")] = tmpl
+        return {"self": cref, "args": [], "sub": sub, "case": case}
+
+    def post(self, I, inp, r):
+        c = I.ctx
+        ca = getattr(I.ctx, "class_attrs", None) or {}
+        written = {k: v for k, v in ca.items() if k[1] == "explicit_not_exists_expression"}
+        c.require(set(written) == {(inp["sub"].qualname, "explicit_not_exists_expression")}, f"the flag is stored on the class being instantiated and on no other class (written: {sorted(k[0] for k in written)})", kind="FRAME")
+        v = written.get((inp["sub"].qualname, "explicit_not_exists_expression"))
+        c.require(v is (inp["case"] == "with-not-exists-template") or (isinstance(v, Sym) and False), "the flag says whether THIS class has a not-exists template")
+
+    def frame_ok(self, I, inp, obj, name):
+        return isinstance(obj, ClassRef) and name == "explicit_not_exists_expression"
